@@ -297,6 +297,15 @@ def srlOp (i j : Nat) (coef : GQ) (n : Nat) : Op :=
   let r := srl i j coef n
   qubitOperatorCreation tol r.2.1 r.2.2
 
+/-- the exact regime of `_qubit_operator_creation` (see `Model.C04.sumOk`): every `+=` deleted only exact
+zeros; evaluated by the driver on every generated input -/
+def qocOk (ops : List Term) (coefs : List GQ) : Bool :=
+  C04.sumOk tol ((ops.zip coefs).map fun tc => mk .qubit tc.1 tc.2)
+
+def srlOk (i j : Nat) (coef : GQ) (n : Nat) : Bool :=
+  let r := srl i j coef n
+  qocOk tol r.2.1 r.2.2
+
 /-! ### `_bravyi_kitaev_interaction_operator` -/
 
 def get1 (n : Nat) (t : List GQ) (p q : Nat) : GQ := t.getD (p * n + q) 0
@@ -318,53 +327,137 @@ structure St where
   coefs : List GQ
   const : GQ
 
+/-- body of the loop `for j in range(i)` of the first pass (cases A/B: pending strings and constant) -/
+def iopInner (nq : Nat) (T1 : Nat → Nat → GQ) (T2 : Nat → Nat → Nat → Nat → GQ) (i : Nat) (s : St) (j : Nat) : St :=
+  let s := if T1 i j != 0 then
+      let r1 := srl i j (T1 i j) nq
+      let r2 := srl j i (T1 i j).conj nq
+      { s with ops := s.ops ++ r1.2.1 ++ r2.2.1, coefs := s.coefs ++ r1.2.2 ++ r2.2.2 }
+    else s
+  let coef := twoBodyCoef T2 i j j i * ⟨mkRat 1 4, 0⟩
+  if coef != 0 then
+    { s with ops := s.ops ++ [pad 3 (occupationSet i), pad 3 (occupationSet j), pad 3 (fSet i j)],
+             coefs := s.coefs ++ [-coef, -coef, coef],
+             const := s.const + coef }
+  else s
+
+/-- body of the loop `for i in range(N)` of the first pass -/
+def iopOuter (nq : Nat) (T1 : Nat → Nat → GQ) (T2 : Nat → Nat → Nat → Nat → GQ) (s : St) (i : Nat) : St :=
+  let s := if T1 i i != 0 then { s with ham := iadd tol s.ham (srlOp tol i i (T1 i i) nq) } else s
+  (List.range i).foldl (iopInner nq T1 T2 i) s
+
+/-- body of the innermost loop of case C -/
+def iopStepC (nq : Nat) (T2 : Nat → Nat → Nat → Nat → GQ) (i j : Nat) (ham : Op) (k : Nat) : Op :=
+  if i != j && i != k then
+    let coef := twoBodyCoef T2 i j k i
+    if coef != 0 then
+      let number := srlOp tol i i 1 nq
+      let r1 := srl j k coef nq
+      let r2 := srl k j coef.conj nq
+      let excitation := qubitOperatorCreation tol (r1.2.1 ++ r2.2.1) (r1.2.2 ++ r2.2.2)
+      iadd tol ham (mulOp .qubit number excitation)
+    else ham
+  else ham
+
+/-- body of the innermost loop of case D -/
+def iopStepD (nq : Nat) (T2 : Nat → Nat → Nat → Nat → GQ) (i j k : Nat) (ham : Op) (l : Nat) : Op :=
+  let c1 := -(twoBodyCoef T2 i j k l)
+  let ham := if c1 != 0 then iadd tol ham (hermitianOneBodyProduct tol i j k l c1 nq) else ham
+  let c2 := -(twoBodyCoef T2 i k j l)
+  let ham := if c2 != 0 then iadd tol ham (hermitianOneBodyProduct tol i k j l c2 nq) else ham
+  let c3 := -(twoBodyCoef T2 i l j k)
+  if c3 != 0 then iadd tol ham (hermitianOneBodyProduct tol i l j k c3 nq) else ham
+
 /-- `N` = tensor size, `nq` = number of qubits (`nq ≥ N`) -/
 def bkInteractionOp (N nq : Nat) (const : GQ) (one two : List GQ) : Op :=
   let T1 := get1 N one
   let T2 := get2 N two
-  let quarter : GQ := ⟨mkRat 1 4, 0⟩
   let s0 : St := ⟨[], [], [], const⟩
   -- cases A and B
-  let s1 := (List.range N).foldl (fun (s : St) i =>
-    let s := if T1 i i != 0 then { s with ham := iadd tol s.ham (srlOp tol i i (T1 i i) nq) } else s
-    (List.range i).foldl (fun (s : St) j =>
-      let s := if T1 i j != 0 then
-          let r1 := srl i j (T1 i j) nq
-          let r2 := srl j i (T1 i j).conj nq
-          { s with ops := s.ops ++ r1.2.1 ++ r2.2.1, coefs := s.coefs ++ r1.2.2 ++ r2.2.2 }
-        else s
-      let coef := twoBodyCoef T2 i j j i * quarter
-      if coef != 0 then
-        { s with ops := s.ops ++ [pad 3 (occupationSet i), pad 3 (occupationSet j), pad 3 (fSet i j)],
-                 coefs := s.coefs ++ [-coef, -coef, coef],
-                 const := s.const + coef }
-      else s) s) s0
+  let s1 := (List.range N).foldl (iopOuter tol nq T1 T2) s0
   -- case C
   let hamC := (List.range N).foldl (fun ham i =>
     (List.range N).foldl (fun ham j =>
-      (List.range j).foldl (fun ham k =>
-        if i != j && i != k then
-          let coef := twoBodyCoef T2 i j k i
-          if coef != 0 then
-            let number := srlOp tol i i 1 nq
-            let r1 := srl j k coef nq
-            let r2 := srl k j coef.conj nq
-            let excitation := qubitOperatorCreation tol (r1.2.1 ++ r2.2.1) (r1.2.2 ++ r2.2.2)
-            iadd tol ham (mulOp .qubit number excitation)
-          else ham
-        else ham) ham) ham) s1.ham
+      (List.range j).foldl (iopStepC tol nq T2 i j) ham) ham) s1.ham
   -- case D
   let hamD := (List.range N).foldl (fun ham i =>
     (List.range i).foldl (fun ham j =>
       (List.range j).foldl (fun ham k =>
-        (List.range k).foldl (fun ham l =>
-          let c1 := -(twoBodyCoef T2 i j k l)
-          let ham := if c1 != 0 then iadd tol ham (hermitianOneBodyProduct tol i j k l c1 nq) else ham
-          let c2 := -(twoBodyCoef T2 i k j l)
-          let ham := if c2 != 0 then iadd tol ham (hermitianOneBodyProduct tol i k j l c2 nq) else ham
-          let c3 := -(twoBodyCoef T2 i l j k)
-          if c3 != 0 then iadd tol ham (hermitianOneBodyProduct tol i l j k c3 nq) else ham) ham) ham) ham) hamC
+        (List.range k).foldl (iopStepD tol nq T2 i j k) ham) ham) ham) hamC
   iadd tol hamD (qubitOperatorCreation tol (s1.ops ++ [[]]) (s1.coefs ++ [s1.const]))
+
+/-! ### the same computation as lists of `+=` operands (used to state the exact regime) -/
+
+/-- `excitation` of case C -/
+def excitationOp (j k : Nat) (coef : GQ) (nq : Nat) : Op :=
+  let r1 := srl j k coef nq
+  let r2 := srl k j coef.conj nq
+  qubitOperatorCreation tol (r1.2.1 ++ r2.2.1) (r1.2.2 ++ r2.2.2)
+
+/-- operands of `qubit_hamiltonian +=` in case A, in program order -/
+def iopA (N nq : Nat) (T1 : Nat → Nat → GQ) : List Op :=
+  (List.range N).flatMap fun i => if T1 i i != 0 then [srlOp tol i i (T1 i i) nq] else []
+
+/-- operands of case C -/
+def iopC (N nq : Nat) (T2 : Nat → Nat → Nat → Nat → GQ) : List Op :=
+  (List.range N).flatMap fun i => (List.range N).flatMap fun j => (List.range j).flatMap fun k =>
+    if i != j && i != k then
+      (if twoBodyCoef T2 i j k i != 0 then
+        [mulOp .qubit (srlOp tol i i 1 nq) (excitationOp tol j k (twoBodyCoef T2 i j k i) nq)] else [])
+    else []
+
+/-- operands of case D -/
+def iopD (N nq : Nat) (T2 : Nat → Nat → Nat → Nat → GQ) : List Op :=
+  (List.range N).flatMap fun i => (List.range i).flatMap fun j => (List.range j).flatMap fun k =>
+    (List.range k).flatMap fun l =>
+      (if -(twoBodyCoef T2 i j k l) != 0 then [hermitianOneBodyProduct tol i j k l (-(twoBodyCoef T2 i j k l)) nq] else [])
+      ++ (if -(twoBodyCoef T2 i k j l) != 0 then [hermitianOneBodyProduct tol i k j l (-(twoBodyCoef T2 i k j l)) nq] else [])
+      ++ (if -(twoBodyCoef T2 i l j k) != 0 then [hermitianOneBodyProduct tol i l j k (-(twoBodyCoef T2 i l j k)) nq] else [])
+
+/-- the pending (string, coefficient) pairs appended by the pair `(i, j)` of the first loop -/
+def pendIJ (nq : Nat) (T1 : Nat → Nat → GQ) (T2 : Nat → Nat → Nat → Nat → GQ) (i j : Nat) : List (Term × GQ) :=
+  (if T1 i j != 0 then
+      (srl i j (T1 i j) nq).2.1.zip (srl i j (T1 i j) nq).2.2
+        ++ (srl j i (T1 i j).conj nq).2.1.zip (srl j i (T1 i j).conj nq).2.2
+    else [])
+  ++ (let coef := twoBodyCoef T2 i j j i * ⟨mkRat 1 4, 0⟩
+      if coef != 0 then
+        [(pad 3 (occupationSet i), -coef), (pad 3 (occupationSet j), -coef), (pad 3 (fSet i j), coef)]
+      else [])
+
+def iopPend (N nq : Nat) (T1 : Nat → Nat → GQ) (T2 : Nat → Nat → Nat → Nat → GQ) : List (Term × GQ) :=
+  (List.range N).flatMap fun i => (List.range i).flatMap fun j => pendIJ nq T1 T2 i j
+
+/-- the constant after the first loop -/
+def iopConst (N : Nat) (const : GQ) (T2 : Nat → Nat → Nat → Nat → GQ) : GQ :=
+  (List.range N).foldl (fun c i => (List.range i).foldl (fun c j =>
+    let coef := twoBodyCoef T2 i j j i * ⟨mkRat 1 4, 0⟩
+    if coef != 0 then c + coef else c) c) const
+
+def hobOk (a b c d : Nat) (coef : GQ) (n : Nat) : Bool :=
+  srlOk tol a c coef n && srlOk tol c a coef.conj n && srlOk tol b d 1 n && srlOk tol d b 1 n
+  && C04.iaddOk tol (mulOp .qubit (srlOp tol a c coef n) (srlOp tol b d 1 n))
+      (mulOp .qubit (srlOp tol c a coef.conj n) (srlOp tol d b 1 n))
+
+/-- the exact regime of `_bravyi_kitaev_interaction_operator`: every `qubit_hamiltonian +=`, every
+`_qubit_operator_creation` and the `+=` inside `_hermitian_one_body_product` deleted only exact zeros;
+evaluated by the driver on every generated input -/
+def bkInteractionOpOk (N nq : Nat) (const : GQ) (one two : List GQ) : Bool :=
+  let T1 := get1 N one
+  let T2 := get2 N two
+  let pend := iopPend N nq T1 T2
+  let last := qubitOperatorCreation tol (pend.map (·.1) ++ [[]]) (pend.map (·.2) ++ [iopConst N const T2])
+  C04.sumOk tol (iopA tol N nq T1 ++ iopC tol N nq T2 ++ iopD tol N nq T2 ++ [last])
+  && qocOk tol (pend.map (·.1) ++ [[]]) (pend.map (·.2) ++ [iopConst N const T2])
+  && (List.range N).all (fun i => T1 i i == 0 || srlOk tol i i (T1 i i) nq)
+  && (List.range N).all (fun i => (List.range N).all fun j => (List.range j).all fun k =>
+      !(i != j && i != k) || twoBodyCoef T2 i j k i == 0 ||
+        qocOk tol ((srl j k (twoBodyCoef T2 i j k i) nq).2.1 ++ (srl k j (twoBodyCoef T2 i j k i).conj nq).2.1)
+          ((srl j k (twoBodyCoef T2 i j k i) nq).2.2 ++ (srl k j (twoBodyCoef T2 i j k i).conj nq).2.2))
+  && (List.range N).all (fun i => (List.range i).all fun j => (List.range j).all fun k => (List.range k).all fun l =>
+      (-(twoBodyCoef T2 i j k l) == 0 || hobOk tol i j k l (-(twoBodyCoef T2 i j k l)) nq)
+      && (-(twoBodyCoef T2 i k j l) == 0 || hobOk tol i k j l (-(twoBodyCoef T2 i k j l)) nq)
+      && (-(twoBodyCoef T2 i l j k) == 0 || hobOk tol i l j k (-(twoBodyCoef T2 i l j k)) nq))
 
 end
 
